@@ -20,12 +20,31 @@
        a strategy against which no play satisfies that objective
        (C04_outside_environment_wins).  The converse duality (complement of the
        Rabin(1) region = opponent's Streett(1) region) is C04_duality_converse.
-       (3) depends on Classical_Prop.classic; (1), (2) are axiom-free. *)
+       (3) depends on Classical_Prop.classic; (1), (2) are axiom-free.
+   (4) gr1.trivial_winning_set ("trivial realizability", built on the
+       duality): TrivialGen.trivial_winning_set is translated on every run
+       from the current gr1.py (the construction of the environment's Rabin(1)
+       automaton field by field, the defaults of default_rabin_automaton read
+       from temporal.py, the two calls of the generated solvers, zk[-1], the
+       returned expression).  It equals the model GenProofs/TrivialSet.v
+       (C04_trivial_translated_is_model), and it holds at a state s exactly
+       when the component wins the Streett(1) game from s in the game's own
+       mode AND the environment -- playing as the Moore, strict component of
+       the role-swapped game (coordinates through swapV, actions exchanged)
+       with recurrence goals ~P_k and the trivial persistence set -- has NO
+       winning strategy, i.e. cannot keep its action and, if the component
+       keeps its own forever, make every persistence set P_k false infinitely
+       often (C04_trivial_set_spec; by determinacy the component then has a
+       strategy that defeats that objective on every play:
+       C04_trivial_set_spec_dual; the objective spelled out:
+       C04_trivial_env_objective).  In mu-calculus terms: C04_trivial_set_mu
+       (axiom-free).  The game-level ones depend on classic. *)
 From Coq Require Import List Bool Arith Lia.
 From Omega Require Import L4.Arena L4.Kleene L4.GameSpec L4.Mu L4.GR1Spec L4.Duality
   L4.Duality2 L4.Plays L4.Determinacy.
-From OmegaGen Require Import FixpointGen Gr1Gen.
-From OmegaGP Require Import FixpointProofs StreettProofs RabinProofs DualityProofs GameSemantics.
+From OmegaGen Require Import FixpointGen Gr1Gen TrivialGen.
+From OmegaGP Require Import FixpointProofs StreettProofs RabinProofs DualityProofs GameSemantics
+  TrivialSet TrivialBridge.
 
 Section C04.
 Variables nc nx ny : nat.
@@ -89,6 +108,72 @@ Qed.
 
 End C04.
 
+(* ---- gr1.trivial_winning_set ---- *)
+Section C04_trivial.
+Import ListNotations.
+Variables nc nx ny : nat.
+Variables E S Ie Is : bdd.     (* actions and (unused by the function) inits *)
+Variables holds goals : list bdd.
+Variables moore plus_one : bool.
+
+Local Notation translated fuel :=
+  (TrivialGen.trivial_winning_set nc nx ny E S Ie Is holds goals moore plus_one fuel).
+(* the environment's game: arena (nc, ny, nx), actions exchanged and read
+   through swapV, persistence [TRUE], Moore, strict *)
+Local Notation env_objective c :=
+  (win_rabin c (dual S) (dual E) [btrue] (map Phi holds) true).
+
+Theorem C04_trivial_translated_is_model : forall fuel v,
+  translated fuel v =
+  band nc nx ny
+    (fst (fst (Gr1Gen.solve_streett_game nc nx ny E S holds goals moore plus_one fuel)))
+    (bnot nc nx ny (dual
+      (last (fst (fst (Gr1Gen.solve_rabin_game nc ny nx (dual S) (dual E) [btrue]
+                         (map dual (map (bnot nc nx ny) holds)) true true fuel))) bfalse))) v.
+Proof. exact (fun fuel v => trivial_winning_set_is_trivial_set nc nx ny E S holds goals moore plus_one fuel v Ie Is). Qed.
+
+Theorem C04_trivial_set_mu : forall fuel v,
+  NV nc nx ny <= fuel -> NV nc ny nx <= fuel -> inr nc nx ny v ->
+  translated fuel v =
+  streett_spec nc nx ny moore plus_one E S holds goals v
+  && negb (rabin_spec nc ny nx true true (dual S) (dual E) [btrue]
+             (map dual (map (bnot nc nx ny) holds)) (swapV v)).
+Proof. exact (fun fuel v HA HB => trivial_winning_set_mu nc nx ny E S Ie Is holds goals moore plus_one fuel HA HB v). Qed.
+
+Theorem C04_trivial_set_spec : forall c fuel s,
+  c < nc -> 0 < length goals -> 0 < length holds ->
+  NV nc nx ny <= fuel -> NV nc ny nx <= fuel -> fst s < nx -> snd s < ny ->
+  (translated fuel (stv c s) = true <->
+   comp_wins nx ny moore (win_streett c E S holds goals plus_one) s /\
+   ~ comp_wins ny nx true (env_objective c) (swap_st s)).
+Proof.
+  exact (fun c fuel s Hc HR HP HA HB =>
+    trivial_winning_set_spec nc nx ny E S Ie Is holds goals moore plus_one fuel HA HB c Hc HR HP s).
+Qed.
+
+Theorem C04_trivial_set_spec_dual : forall c fuel s,
+  c < nc -> 0 < length goals -> 0 < length holds ->
+  NV nc nx ny <= fuel -> NV nc ny nx <= fuel -> fst s < nx -> snd s < ny ->
+  (translated fuel (stv c s) = true <->
+   comp_wins nx ny moore (win_streett c E S holds goals plus_one) s /\
+   env_prevents ny nx true (env_objective c) (swap_st s)).
+Proof.
+  exact (fun c fuel s Hc HR HP HA HB =>
+    trivial_winning_set_spec_dual nc nx ny E S Ie Is holds goals moore plus_one fuel HA HB c Hc HR HP s).
+Qed.
+
+(* the environment's objective on a play q of the role-swapped game
+   (q i = (y_i, x_i)): keep its action as a strict component, and if the
+   opponent keeps its own forever, every P_k is false infinitely often *)
+Theorem C04_trivial_env_objective : forall c q,
+  env_objective c q <->
+  safe_comp c (dual S) (dual E) true q /\
+  ((forall i, Eat c (dual S) q i) ->
+   forall P, In P holds -> forall N, exists i, N <= i /\ P (stv c (swap_st (q i))) = false).
+Proof. exact (fun c q => Wenv_reading E S holds c q). Qed.
+
+End C04_trivial.
+
 Local Open Scope bool_scope.
 Import ListNotations.
 (* non-vacuity of the duality statement on a concrete 2x2 arena *)
@@ -115,6 +200,30 @@ Example C04_region_example :
   = [false; true; false; true] /\ NV 1 2 2 <= 20.
 Proof. vm_compute. split; [reflexivity|repeat constructor]. Qed.
 
+(* trivial_winning_set on a game with three kinds of states (2 x 3 arena,
+   the component's y never changes): y = 0 -- the component wins by staying
+   in the persistence set P, trivially; y = 2 -- it wins only through the
+   recurrence goal R while P is false for ever, so the environment wins its
+   own game and the state is NOT trivial; y = 1 -- the component loses *)
+Example C04_trivial_set_example :
+  let E : bdd := fun v => true in
+  let S : bdd := fun v => Nat.eqb (vyp v) (vy v) in
+  let P : bdd := fun v => Nat.eqb (vy v) 0 in
+  let R : bdd := fun v => Nat.eqb (vy v) 0 || Nat.eqb (vy v) 2 in
+  let sts := [(0, 0); (0, 1); (0, 2); (1, 0); (1, 1); (1, 2)] in
+  map (fun s => TrivialGen.trivial_winning_set 1 2 3 E S btrue btrue [P] [R] false true 40
+                  (stv 0 s)) sts
+  = [true; false; false; true; false; false]
+  /\ map (fun s => streett_region 1 2 3 E S [P] [R] false true 40 (stv 0 s)) sts
+  = [true; false; true; true; false; true]
+  /\ NV 1 2 3 <= 40 /\ NV 1 3 2 <= 40.
+Proof. vm_compute. repeat split; repeat constructor. Qed.
+
+Print Assumptions C04_trivial_translated_is_model.
+Print Assumptions C04_trivial_set_mu.
+Print Assumptions C04_trivial_set_spec.
+Print Assumptions C04_trivial_set_spec_dual.
+Print Assumptions C04_trivial_env_objective.
 Print Assumptions C04_region_is_winning_region.
 Print Assumptions C04_outside_environment_wins.
 Print Assumptions C04_duality_converse.
